@@ -119,7 +119,19 @@ func cmdCheck(args []string) int {
 	usedExt := map[string]bool{}
 	notes := map[string]bool{}
 	perFunc := map[string]int{}
-	for _, k := range keys {
+	// the property's obligations are those of the functions tagged with it plus, transitively, of
+	// every function whose contract their proofs rely on (modular proofs: a callee is only as
+	// good as its own verified contract)
+	seenKey := map[string]bool{}
+	usedLemmaSet := map[string]bool{}
+	work := append([]string(nil), keys...)
+	for len(work) > 0 {
+		k := work[0]
+		work = work[1:]
+		if seenKey[k] {
+			continue
+		}
+		seenKey[k] = true
 		r := P.verifyFunc(k, false)
 		if r.Trusted {
 			usedExt["trusted contract (body not verified): "+displayKey(k)] = true
@@ -130,8 +142,13 @@ func cmdCheck(args []string) int {
 			continue
 		}
 		funcsUnder = append(funcsUnder, displayKey(k))
+		tagged := false
+		if c := P.specs.Funcs[k]; c != nil && (hasProp(c.Props, *prop) || clauseHasProp(c, *prop)) {
+			tagged = true
+		}
 		for _, o := range r.Obls {
-			if hasProp(o.Props, *prop) {
+			// functions pulled in as dependencies contribute all their obligations
+			if !tagged || hasProp(o.Props, *prop) {
 				obls = append(obls, o)
 				perFunc[displayKey(k)]++
 			}
@@ -145,9 +162,17 @@ func cmdCheck(args []string) int {
 		for _, s := range r.Notes {
 			notes[s] = true
 		}
+		for _, dep := range r.UsedContracts {
+			if !seenKey[dep] {
+				work = append(work, dep)
+			}
+		}
+		for _, l := range r.UsedLemmas {
+			usedLemmaSet[l] = true
+		}
 	}
 	// lemmas serving the property
-	lem := P.lemmaObligations(*prop)
+	lem := P.lemmaObligationsFor(*prop, usedLemmaSet)
 	obls = append(obls, lem...)
 	workers := 3
 	solveAll(P, obls, timeout, all, workers)
